@@ -1,0 +1,7 @@
+//go:build !verif
+
+package local
+
+// verifGate is the verification harness's gate hook. Without the "verif" build
+// tag it does nothing.
+func (e *endpoint) verifGate(string) {}
